@@ -11,6 +11,13 @@ try:
         h, s = l.split(' ', 1)
         if s.startswith('verif:'):
             hooks_commits.append(h)
+            continue
+        if s.startswith('fix:'):
+            continue
+        # a commit (e.g. the driver's end-of-round snapshot) that touches nothing but contract files
+        files = subprocess.check_output(['git', '-C', '/repo', 'show', '--name-only', '--format=', h], text=True).split()
+        if files and all(f.endswith('zz_verif_contracts.go') for f in files):
+            hooks_commits.append(h)
 except Exception:
     pass
 checks = []
